@@ -38,6 +38,9 @@ var c09MoreValues = []c09Value{
 	{"NOERROR;MX;010 mx.example", "MX|10 mx.example"},
 	// a typed rewrite with an empty value is not the value-less one
 	{"NOERROR;TXT;", "TXT|"},
+	// equal values, different record types
+	{"NOERROR;SVCB;10 svc.example alpn=h2", "SVCB|10 svc.example alpn=h2"},
+	{"NOERROR;PTR;ptr.example.", "PTR|ptr.example."}, {"NOERROR;TXT;ptr.example.", "TXT|ptr.example."},
 	// same priority, target and parameter count; one has a flag parameter (empty value) the other lacks
 	{"NOERROR;HTTPS;10 svc.example alpn=h2 no-default-alpn=", "HTTPS|10 svc.example alpn=h2 no-default-alpn="}, {"NOERROR;HTTPS;10 svc.example alpn=h2 port=8443", "HTTPS|10 svc.example alpn=h2 port=8443"},
 }
